@@ -167,6 +167,14 @@ def hand_templates():
     add("H3-triangle", "crowded", ["H", "H", "H"], [[0, 0, 0], [0.859375, 0, 0], [0.4375, 0.78125, 0]])
     add("H4-chain", "crowded", ["H"] * 4, [[0, 0, 0], [F(4, 5), 0, 0], [F(33, 20), 0, 0], [F(51, 20), 0, 0]], exact=True)
     add("H4-chain-acbd", "crowded", ["H"] * 4, [[0, 0, 0], [F(33, 20), 0, 0], [F(4, 5), 0, 0], [F(51, 20), 0, 0]], exact=True)
+    add("H4-chain-compressed", "crowded", ["H"] * 4, [[0, 0, 0], [0.796875, 0, 0], [1.703125, 0, 0], [2.65625, 0, 0]])
+    s2, c2 = math.sin(2 * math.pi / 3), math.cos(2 * math.pi / 3)
+    fcc = [[0, 0, 0], [1.90625, 0, 0], [-1.5, 0, 0], [4.09375, 0, 0], [0, 1.09375, 0], [0, 1.09375 * c2, 1.09375 * s2],
+           [0, 1.09375 * c2, -1.09375 * s2], [1.90625, -1.09375, 0], [1.90625, -1.09375 * c2, 1.09375 * s2],
+           [1.90625, -1.09375 * c2, -1.09375 * s2]]
+    add("F-CH3-CH3-Cl-crowded", "crowded", ["C", "C", "F", "Cl"] + ["H"] * 6, fcc)
+    add("F-CH3-CH3-Cl-crowded-C1first", "crowded", ["C", "C", "F", "Cl"] + ["H"] * 6, [fcc[1], fcc[0]] + fcc[2:])
+    add("C2-bridged-H-pair", "crowded", ["C", "H", "H", "C"], [[0, 0, 0], [1.25, 0, 0], [2.0625, 0, 0], [3.3125, 0, 0]])
     add("FHF-HF-cluster", "crowded", ["F", "H", "F", "H", "F"],
         [[0, 0, 0], [1.140625, 0, 0], [2.28125, 0, 0], [2.28125, 1.15625, 0], [2.28125, 2.3125, 0.09375]])
     # --- near-threshold bond lengths (C-C: 1.52*1.3 = 1.976; Cl-Cl 2.5844; H-H 0.9633; C-H 1.391)
@@ -227,6 +235,22 @@ def jittered(rng, base, k):
             xyz = [[v + F(rng.randrange(-6, 7), 64) for v in p] for p in g.xyz]
             tag = "jitter"
         out.append(Geo(f"{g.name}|{tag}#{j}", "jitter", g.syms, xyz))
+    return out
+
+
+def crowded_clusters(rng, k):
+    """random crowded clusters on the k/64 grid (min separation 0.7 A): many adjacent over-coordinated atoms"""
+    pools = [["H", "H", "H", "C", "C", "N", "O", "H"], ["H", "H", "C", "O", "F", "H"], ["C", "C", "C", "H", "H", "H", "H"],
+             ["H", "H", "H", "H", "H"], ["O", "H", "H", "N", "H", "Cl", "H"]]
+    out = []
+    while len(out) < k:
+        syms = list(rng.choice(pools))
+        rng.shuffle(syms)
+        half = rng.choice([80, 96, 112])
+        xyz = [[F(rng.randrange(-half, half + 1), 64) for _ in range(3)] for _ in syms]
+        if min(sum((a - b) ** 2 for a, b in zip(p, q)) for i, p in enumerate(xyz) for q in xyz[:i]) < F(49, 100):
+            continue
+        out.append(Geo(f"cluster#{len(out)}", "cluster", syms, xyz))
     return out
 
 
@@ -341,6 +365,29 @@ class Exact:
                 self.row_tie = True
                 if i in self.overcoordinated:
                     self.cut_tie = True
+
+    def reference_edges(self):
+        """The perceived graph according to the property, computed exactly and independently: all pairs
+        within tolerance, then atom by atom in index order an atom that is over-coordinated AT THAT
+        MOMENT loses its longest bonds.  -> (sorted edges, log) or None when a cut falls on a tie
+        (or the structure has a near-threshold pair / radius error)."""
+        if self.radius_error or self.near:
+            return None
+        n = self.g.n
+        nb = [set(x) for x in self.nbrs0]
+        log = []
+        for i in range(n):
+            cap = self.maxval[i]
+            if len(nb[i]) <= cap:
+                continue
+            order = sorted(nb[i], key=lambda k: (self.d2[i][k], k))
+            if cap >= 1 and self.d2[i][order[cap]] - self.d2[i][order[cap - 1]] <= 4 * EPS * self.d2[i][order[cap]]:
+                return None
+            for j in order[cap:]:
+                nb[i].discard(j)
+                nb[j].discard(i)
+                log.append((i, j, len(order), cap))
+        return sorted((i, j) for i in range(n) for j in nb[i] if i < j), log
 
     def graph_decidable(self):
         return self.radius_error or (not self.near and not self.cut_tie)
@@ -463,6 +510,24 @@ class Oracles:
                 self.fail(pre + "within-tolerance-not-bonded", f"{g.name}: atoms {e} are within tolerance "
                           f"({math.sqrt(float(ex.d2[e[0]][e[1]])):.6f} <= {float(ex.thr[e]):.6f}) but not bonded and "
                           f"{why}", rep)
+        # the cap treats the atoms in index order and only an atom that is over-coordinated WHEN IT IS
+        # REACHED loses bonds (its longest): exact sequential reference
+        ref = ex.reference_edges()
+        if ref is None:
+            self.ctx.hist("impl-oracle:graph-rules", "sequential-reference-skipped(tie/near)")
+        elif sorted(edges) != ref[0]:
+            removed = {(min(i, j), max(i, j)): (i, m, c) for i, j, m, c in ref[1]}
+            deg = [sum(1 for e in edges if i in e) for i in range(g.n)]
+            msgs = []
+            for e in sorted(set(ref[0]) - set(edges)):
+                msgs.append(f"bond {e} ({math.sqrt(float(ex.d2[e[0]][e[1]])):.4f} A, within tolerance) is missing although "
+                            f"atom {e[0]} keeps {deg[e[0]]}/{ex.maxval[e[0]]} and atom {e[1]} keeps {deg[e[1]]}/{ex.maxval[e[1]]} "
+                            f"bonds: neither was over-coordinated with this bond among its longest when it was reached")
+            for e in sorted(set(edges) - set(ref[0])):
+                i, m, c = removed.get(e, (None, 0, 0))
+                msgs.append(f"bond {e} is kept although atom {i} had {m} > {c} bonds when reached and this is among its longest")
+            self.fail(pre + "valence-cap|not-sequential", f"{g.name}: perceived {sorted(edges)}, the atom-by-atom cap gives "
+                      f"{ref[0]}: " + "; ".join(msgs[:3]), dict(rep, reference=ref[0]))
         return r
 
     def shape(self, g):
@@ -872,7 +937,7 @@ def build_structures(ctx):
     full = not ctx.quick
     T = hand_templates()
     Rk = rdkit_structures(ctx.rng, len(SMILES) if full else 20)
-    J = jittered(ctx.rng, T + Rk, 120 if full else 16)
+    J = jittered(ctx.rng, T + Rk, 120 if full else 16) + crowded_clusters(ctx.rng, 80 if full else 16)
     return T, Rk, J
 
 
@@ -888,7 +953,7 @@ def run_oracles(ctx, structs, consts):
         r = orc.single(g, ex)
         base = {"graph": r, "unpruned": impl_graph(g, allow=True), "shape": orc.shape(g),
                 "lin_ok": ex.linear_margin_ok(consts["lin"]), "pla_ok": ex.planar_margin_ok(consts["pl"]), "sn": None}
-        do_sn = g.kind != "jitter" and 2 <= g.n <= (12 if (full or g.kind != "rdkit") else 7)
+        do_sn = g.kind not in ("jitter", "cluster") and 2 <= g.n <= (12 if (full or g.kind != "rdkit") else 7)
         if do_sn:
             base["sn"] = orc.sn(g)
         idx = index_tuples(rng, g, 2 if full else 1)
